@@ -55,6 +55,7 @@ FftFilter::FftFilter(const arr_real& h)
 
 //-------------------------------------------------------------------------------------------------
 arr_cmplx FftFilter::process(const arr_cmplx& x) {
+    DSPLIB_ASSERT(_n > 0, "filter is not initialized (default constructed)");
     const int nr = (x.size() + _nx) / _n * _n;
     arr_cmplx r(nr);
     cmplx_t* pr = r.data();
